@@ -235,6 +235,23 @@ def d28_region(s, i):
     return False
 
 
+def d29_region(s, i):
+    """a with-items task reached a completed status while one of its item actions was parked
+    (paused/pending): the item's later report lands on a finished task"""
+    led = ledgers(s["ops"][:i + 1])
+    for j in range(i + 1):
+        st = s["replies"][j].get("state")
+        if not st:
+            continue
+        for key in led[j][1]:
+            if key[2] is None:
+                continue
+            idx = st.get("tasks", {}).get("%s__r%s" % (key[0], key[1]))
+            if idx is not None and idx < len(st["sequence"]) and st["sequence"][idx]["status"] in TERMINAL:
+                return True
+    return False
+
+
 def region_of(s, i):
     if rearrival_region(s, i):
         return "D2"
@@ -242,6 +259,8 @@ def region_of(s, i):
         return "D20"
     if d28_region(s, i):
         return "D28"
+    if d29_region(s, i):
+        return "D29"
     return None
 
 
@@ -281,7 +300,7 @@ def mon_C02(s):
         if status in ("paused", "canceled") and infl:
             out.append(V("%s with actions in flight %s" % (status, sorted(map(str, infl))), i,
                          "D2" if rearrival_region(s, i) else ("D23" if status == "paused" and d23_region(s, i, infl) else
-                                                              ("D26" if status == "paused" and d26_region(s, i, infl) else None))))
+                                                              ("D26" if status == "paused" and d26_region(s, i, infl) else region_of(s, i)))))
         if status in ("pausing", "canceling") and not infl and op["op"] in ("report", "req", "next"):
             out.append(V("%s with nothing in flight" % status, i, region_of(s, i)))
         # failure => failed
